@@ -174,6 +174,14 @@ func oracleFault(seed int64, id int, mode string) CaseResult {
 		kinds, sites = []string{"none", "error", "panic-runtime", "panic-error", "cancel"}, allSites[:11]
 	}
 	fc, r := genFaultCase(seed, id, kinds, sites)
+	slow := mode == "storerr" && id%4 == 3
+	if slow {
+		// a slow consumer side: the failing selector runs ahead and fills its exchange buffer
+		fc.Window = Window{Start: 900_000, End: 900_000 + 59*15_000, Step: 15_000} // 60 steps, six batches
+		fc.Instant = false
+		fc.Query = pick(r, []string{"bar + on (a) group_right foo", "sum(bar) + on () group_right foo", "foo * on (a, b) bar", "sum by (a) (foo) / on (a) sum by (a) (bar)"})
+		fc.Site = pick(r, []string{"it.seek", "it.next"})
+	}
 	runtime.GOMAXPROCS(fc.Procs)
 	data := faultData(fc.Window)
 	res := CaseResult{Query: fc.Query, Window: fc.Window, Procs: fc.Procs}
@@ -187,10 +195,16 @@ func oracleFault(seed int64, id int, mode string) CaseResult {
 		return res
 	}
 	fc.N = 1 + r.Int63n(counts[fc.Site])
+	if slow {
+		fc.N = counts[fc.Site]/2 + r.Int63n(counts[fc.Site]/2+1) // in the later batches
+	}
 	res.Tags = []string{fmt.Sprintf("fault=%s@%s#%d/%d", fc.Kind, fc.Site, fc.N, counts[fc.Site])}
 	res.NonTriv = true
 
 	st := NewStore(data)
+	if slow {
+		st.SlowName, st.SlowDelay = "bar", 300*time.Microsecond
+	}
 	st.WithCanaries()
 	snap := st.Snapshot()
 	st.KeepLog = true
